@@ -116,7 +116,7 @@ func init() {
 		Rule: "real janitor (DeleteExpiredJobInterval=1ms, DeleteExpiredAfter=1h) paused between cycles at its EvictionNeeded call-out; seeded rounds write mixes of never-expiring, fresh (+1h..+3h), " +
 			"recently expired (-1s..-30min) and long-expired (-2h..-10h) entries, then let 1..3 cleanup cycles run and compare Len/Walk/Read with the model (survivors = all but long-expired); " +
 			"TimeToLive finite and Unlimited (incl. first per-call TTL arriving late), all three backends; distinct_nontrivial = distinct (backend, ttl mode, class-mix pattern per round) cases containing a long-expired and a surviving entry",
-		Required:    []string{"cycles.observed", "entries.long_expired.deleted", "entries.never.survived", "entries.recent.survived", "entries.fresh.survived", "unlimited.late_ttl.cases", "hostile_callout.writes", "kind.ShardedMap", "kind.SyncMap", "kind.ShardedMapOf", "stress.rounds", "aging.must_be_deleted.checked", "aging.must_survive.checked", "progress.cleaned", "bulk.cycles", "parked.cases", "renewed.entries_checked"},
+		Required:    []string{"cycles.observed", "entries.long_expired.deleted", "entries.never.survived", "entries.recent.survived", "entries.fresh.survived", "unlimited.late_ttl.cases", "hostile_callout.writes", "kind.ShardedMap", "kind.SyncMap", "kind.ShardedMapOf", "stress.rounds", "aging.must_be_deleted.checked", "aging.must_survive.checked", "progress.cleaned", "bulk.cycles", "parked.cases", "renewed.entries_checked", "stress.runs_rewriting_equal_values", "restore_only.cases"},
 		Assumptions: []string{"wall clock not stepped; class margins are >=1s against a 1h DeleteExpiredAfter boundary", "no eviction limit configured; EvictionNeeded always answers false"},
 		Timeout:     func(string) time.Duration { return 45 * time.Minute },
 	})
@@ -142,6 +142,9 @@ func runC11(b *Batch) {
 	}
 	if !b.Skip(2100000) && b.Only < 0 || b.Only == 2100000 {
 		c11Progress(b, 2100000)
+	}
+	if !b.Skip(2150000) && b.Only < 0 || b.Only == 2150000 {
+		c11RestoreOnly(b, 2150000)
 	}
 	for i := 0; i < b.Pick(1, 8); i++ {
 		if !b.Skip(2200000+i) && b.Only < 0 || b.Only == 2200000+i {
@@ -777,6 +780,10 @@ func c11Stress(b *Batch, idx int) {
 		be.Write(cache.WithTTL(bg, -time.Second, false), k, "filler")
 	}
 	writers := 6
+	sameValue := idx%2 == 1
+	if sameValue {
+		b.R.Count("stress.runs_rewriting_equal_values", 1)
+	}
 	keys := inShard("victim", writers)
 	var wg sync.WaitGroup
 	var lost, rounds, longGone int64
@@ -788,7 +795,11 @@ func c11Stress(b *Batch, idx int) {
 			defer wg.Done()
 			k := keys[w]
 			for i := 0; i < 1000; i++ { // fixed number of rounds, not a time budget
-				be.Write(cache.WithTTL(bg, -time.Hour-time.Duration(r.Intn(1000))*time.Second, false), k, "old")
+				old := "old"
+				if sameValue {
+					old = "same" // the expired version and its fresh replacement carry the same value (a refresh of unchanged data)
+				}
+				be.Write(cache.WithTTL(bg, -time.Hour-time.Duration(r.Intn(1000))*time.Second, false), k, old)
 				if r.Intn(2) == 0 {
 					time.Sleep(time.Duration(r.Intn(150)) * time.Microsecond)
 				}
@@ -796,6 +807,9 @@ func c11Stress(b *Batch, idx int) {
 					atomic.AddInt64(&longGone, 1) // the janitor removed the long-expired version: fine
 				}
 				tok := fmt.Sprintf("fresh-%d-%d", w, i)
+				if sameValue {
+					tok = "same"
+				}
 				be.Write(cache.WithTTL(bg, time.Hour, false), k, tok)
 				v, err := be.Read(bg, k)
 				atomic.AddInt64(&rounds, 1)
@@ -1298,4 +1312,64 @@ func c11Bulk(b *Batch, idx int) {
 		}
 	}
 	runtime.KeepAlive(be)
+}
+
+// c11RestoreOnly: a cache whose whole content arrived through Restore (never-expiring entries dumped by an UnlimitedTTL
+// instance) and was then expired by ExpireAll - no Write ever happened on it. The entries age past DeleteExpiredAfter in real
+// time and the next cycle must remove them, for finite and unlimited configurations alike.
+func c11RestoreOnly(b *Batch, idx int) {
+	rng := rand.New(rand.NewSource(b.CaseSeed(idx)))
+	const D = 30 * time.Millisecond
+	for _, kind := range backendKinds {
+		for _, unlimited := range []bool{false, true} {
+			cfg := cache.Config{DeleteExpiredJobInterval: time.Millisecond, DeleteExpiredAfter: D, TimeToLive: time.Hour, ExpirationJitter: -1}
+			if unlimited {
+				cfg.TimeToLive = cache.UnlimitedTTL
+			}
+			g := newJanGate()
+			cfg.EvictionNeeded = g.evictionNeeded
+			be := newBackend(kind, cfg)
+			parked := false
+			func() {
+				defer func() { g.done(parked) }()
+				if _, err := g.next(); err != nil {
+					b.R.Inconcl("C11 restore-only: janitor never arrived")
+					return
+				}
+				parked = true
+				src := newBackend(kind, cache.Config{TimeToLive: cache.UnlimitedTTL})
+				n := 2 + rng.Intn(8)
+				for i := 0; i < n; i++ {
+					src.Write(bg, []byte(fmt.Sprintf("r-%d", i)), "v")
+				}
+				var buf bytes.Buffer
+				if _, err := src.Dump(&buf); err != nil {
+					return
+				}
+				if _, err := be.Restore(&buf); err != nil {
+					return
+				}
+				be.ExpireAll(bg)
+				time.Sleep(D + 20*time.Millisecond)
+				tr := time.Now()
+				g.release(false)
+				parked = false
+				if _, err := g.next(); err != nil {
+					b.R.Inconcl("C11 restore-only: janitor did not come back")
+					return
+				}
+				parked = true
+				b.R.Eval()
+				b.R.Count("restore_only.cases", 1)
+				b.R.Nontrivial(fmt.Sprintf("restore-only/%s/unl=%v", kind, unlimited))
+				left := 0
+				var oldest time.Time
+				be.Walk(func(_ []byte, _ interface{}, exp timeT) error { left++; oldest = exp; return nil })
+				if left != 0 {
+					b.R.Violate(b, idx, "C11:"+kind+":restored-then-expired-survived", fmt.Sprintf("%d of %d entries that arrived by Restore and were expired by ExpireAll %v before the cycle (DeleteExpiredAfter %v) survived it (unlimited=%v, no Write ever happened on this cache)", left, n, tr.Sub(oldest).Round(time.Millisecond), D, unlimited), nil)
+				}
+			}()
+			runtime.KeepAlive(be)
+		}
+	}
 }
